@@ -279,3 +279,105 @@ func AnchorAtOrigin(r *run.Rng, g geom.Geometry) geom.Geometry {
 	p := pts[r.Intn(len(pts))]
 	return model.ToGeom(t.Map(func(c []float64, _ geom.CoordinatesType) { c[0] -= p[0]; c[1] -= p[1] }))
 }
+
+// Payload rebuilds g (any coordinate type) as a geometry of coordinate type ct with the same XY, structure,
+// member order and emptiness, and with Z/M drawn independently at every control point: control points
+// that share an XY location (ring closing points, repeated vertices, touching members) get *different*
+// Z/M values. Everything the properties define on the point set in the plane (validity, simplicity,
+// closedness, DE-9IM, predicates, distance, envelope, hull, measures, boundary location) must not see it.
+func Payload(r *run.Rng, g geom.Geometry, ct geom.CoordinatesType) geom.Geometry {
+	n := 0
+	val := func() float64 {
+		n++
+		if r.Chance(1, 4) {
+			return float64(r.Range(-3, 3))
+		}
+		return float64(n*7) + 0.5
+	}
+	seq := func(s geom.Sequence) geom.Sequence {
+		fs := make([]float64, 0, s.Length()*ct.Dimension())
+		for i := 0; i < s.Length(); i++ {
+			xy := s.GetXY(i)
+			fs = append(fs, xy.X, xy.Y)
+			if ct.Is3D() {
+				fs = append(fs, val())
+			}
+			if ct.IsMeasured() {
+				fs = append(fs, val())
+			}
+		}
+		return geom.NewSequence(fs, ct)
+	}
+	point := func(p geom.Point) geom.Point {
+		xy, ok := p.XY()
+		if !ok {
+			return p.ForceCoordinatesType(ct)
+		}
+		c := geom.Coordinates{XY: xy, Type: ct}
+		if ct.Is3D() {
+			c.Z = val()
+		}
+		if ct.IsMeasured() {
+			c.M = val()
+		}
+		return geom.NewPoint(c)
+	}
+	line := func(l geom.LineString) geom.LineString {
+		if l.IsEmpty() {
+			return l.ForceCoordinatesType(ct)
+		}
+		return geom.NewLineString(seq(l.Coordinates()))
+	}
+	poly := func(p geom.Polygon) geom.Polygon {
+		if p.IsEmpty() {
+			return p.ForceCoordinatesType(ct)
+		}
+		rs := p.DumpRings()
+		out := make([]geom.LineString, len(rs))
+		for i, rg := range rs {
+			out[i] = geom.NewLineString(seq(rg.Coordinates()))
+		}
+		return geom.NewPolygon(out)
+	}
+	switch g.Type() {
+	case geom.TypePoint:
+		return point(g.MustAsPoint()).AsGeometry()
+	case geom.TypeMultiPoint:
+		mp := g.MustAsMultiPoint()
+		out := make([]geom.Point, mp.NumPoints())
+		for i := range out {
+			out[i] = point(mp.PointN(i))
+		}
+		return geom.NewMultiPoint(out).ForceCoordinatesType(ct).AsGeometry()
+	case geom.TypeLineString:
+		return line(g.MustAsLineString()).AsGeometry()
+	case geom.TypeMultiLineString:
+		ml := g.MustAsMultiLineString()
+		out := make([]geom.LineString, ml.NumLineStrings())
+		for i := range out {
+			out[i] = line(ml.LineStringN(i))
+		}
+		return geom.NewMultiLineString(out).ForceCoordinatesType(ct).AsGeometry()
+	case geom.TypePolygon:
+		return poly(g.MustAsPolygon()).AsGeometry()
+	case geom.TypeMultiPolygon:
+		mp := g.MustAsMultiPolygon()
+		out := make([]geom.Polygon, mp.NumPolygons())
+		for i := range out {
+			out[i] = poly(mp.PolygonN(i))
+		}
+		return geom.NewMultiPolygon(out).ForceCoordinatesType(ct).AsGeometry()
+	default:
+		gc := g.MustAsGeometryCollection()
+		out := make([]geom.Geometry, gc.NumGeometries())
+		for i := range out {
+			out[i] = Payload(r, gc.GeometryN(i), ct)
+		}
+		return geom.NewGeometryCollection(out).ForceCoordinatesType(ct).AsGeometry()
+	}
+}
+
+// PayloadCT draws one of the three coordinate types that carry a payload.
+func PayloadCT(r *run.Rng) geom.CoordinatesType {
+	return []geom.CoordinatesType{geom.DimXYZ, geom.DimXYM, geom.DimXYZM}[r.Intn(3)]
+}
